@@ -557,3 +557,58 @@ Proof.
   - destruct (Z.lt_ge_cases c 128) as [Hl | Hg]; [apply sets_agree_ascii; lia |].
     destruct (not_ascii_sets c Hg) as (-> & -> & -> & -> & ->). split; reflexivity.
 Qed.
+
+(* ---------- otto's escape is B.2.1 on strings without surrogates ---------- *)
+Lemma no_escape_sets_ascii : forall c, 0 <= c < 128 -> otto_no_escape c = esc_unescaped c.
+Proof.
+  assert (forallb (fun c => Bool.eqb (otto_no_escape c) (esc_unescaped c)) ascii_codes = true) as H
+    by (vm_compute; reflexivity).
+  intros c Hc. rewrite forallb_forall in H. specialize (H c (ascii_codes_complete c Hc)).
+  apply eqb_prop in H. exact H.
+Qed.
+
+Lemma esc_unescaped_high : forall c, 128 <= c -> esc_unescaped c = false.
+Proof.
+  intros c H.
+  assert (forall k, k < 128 -> (c =? k) = false) as E by (intros; apply Z.eqb_neq; lia).
+  unfold esc_unescaped, is_alpha, is_dec, mem.
+  destruct (Z.leb_spec c 90); [lia |]. destruct (Z.leb_spec c 122); [lia |].
+  destruct (Z.leb_spec c 57); [lia |].
+  rewrite !andb_false_r. cbn [existsb orb]. rewrite !E by lia. reflexivity.
+Qed.
+
+Lemma surr_split : forall c, is_surr c = false -> is_hi c = false /\ is_lo c = false.
+Proof.
+  intros c H. unfold is_surr, is_hi, is_lo in *.
+  destruct (Z.leb_spec 0xD800 c); destruct (Z.leb_spec c 0xDFFF); cbn in H; try discriminate;
+    destruct (Z.leb_spec c 0xDBFF); destruct (Z.leb_spec 0xDC00 c); cbn; auto; lia.
+Qed.
+
+Lemma utf16_decode_no_surr : forall s, Forall (fun c => is_surr c = false) s -> utf16_decode s = s.
+Proof.
+  induction s as [| c r IH]; intro H; [reflexivity |].
+  inversion H as [| ? ? Hc Hr]; subst. destruct (surr_split c Hc) as [Eh El].
+  cbn [utf16_decode]. rewrite Eh, El. f_equal. apply IH; assumption.
+Qed.
+
+Lemma escape_rune_unit : forall c, 0 <= c < 0x10000 -> escape_rune c = escape_unit c.
+Proof.
+  intros c H. unfold escape_rune, escape_unit, escape_u16, units.
+  destruct (Z.ltb_spec c 0x10000); [| lia].
+  destruct (Z.ltb_spec c 0x80).
+  - rewrite no_escape_sets_ascii by lia. cbn [andb].
+    destruct (esc_unescaped c); [reflexivity |].
+    destruct fixed_escape_astral; cbn [flat_map]; rewrite ?app_nil_r; reflexivity.
+  - assert (esc_unescaped c = false) as -> by (apply esc_unescaped_high; lia). cbn [andb].
+    destruct fixed_escape_astral; cbn [flat_map]; rewrite ?app_nil_r; reflexivity.
+Qed.
+
+Lemma escape_model_is_spec : forall s,
+  Forall (fun c => 0 <= c < 0x10000) s -> Forall (fun c => is_surr c = false) s ->
+  escape_model s = escape_spec s.
+Proof.
+  intros s HR HS. unfold escape_model, escape_spec. rewrite utf16_decode_no_surr by assumption.
+  induction s as [| c r IH]; [reflexivity |].
+  inversion HR; inversion HS; subst. cbn [flat_map].
+  rewrite escape_rune_unit by assumption. f_equal. apply IH; assumption.
+Qed.
